@@ -1,0 +1,63 @@
+/*
+ * Deterministic-simulation hooks (verification builds only).
+ *
+ * Everything in this header is inert unless the library is compiled with
+ * -DZSTD_VERIF_SIM : without it the macros expand to nothing / constants and
+ * no symbol is referenced, so the shipped behaviour is unchanged.
+ *
+ * With the guard defined, the simulator that links the library provides :
+ *   ZSTD_verif_probe(id)  : reach measurement, "this rare condition was hit"
+ *   ZSTD_verif_coin(site) : simulator-decided choice between two LEGAL behaviours
+ *                           (e.g. which equivalent entropy decoder variant runs)
+ *   ZSTD_verif_indexJump(): number of bytes by which the match-finder index of a
+ *                           continuing context is advanced at the start of a frame
+ */
+#ifndef ZSTD_VERIF_H
+#define ZSTD_VERIF_H
+
+enum {
+    ZSTD_VP_cstream_endShortcut = 1,     /* ZSTD_compressStream_generic : direct ZSTD_compressEnd into caller's buffer */
+    ZSTD_VP_dstream_singlePass,          /* ZSTD_decompressStream : single-pass shortcut */
+    ZSTD_VP_overflowCorrection,          /* ZSTD_overflowCorrectIfNeeded : indexes rebased */
+    ZSTD_VP_ldmOverflowCorrection,       /* LDM window rebased */
+    ZSTD_VP_indexTooCloseReset,          /* pre-emptive index reset at frame start */
+    ZSTD_VP_cdictAttach,
+    ZSTD_VP_cdictCopy,
+    ZSTD_VP_mtJobTableFull,              /* ZSTDMT : job prepared but no worker available */
+    ZSTD_VP_mtInputRangeBusy,            /* ZSTDMT_tryGetInputRange failed */
+    ZSTD_VP_hostageByte,                 /* ZSTD_decompressStream keeps last input byte hostage */
+    ZSTD_VP_seqDecoderLong,              /* prefetching sequence decoder */
+    ZSTD_VP_seqDecoderSplitLit,          /* split literal buffer sequence decoder */
+    ZSTD_VP_seqDecoderShort,
+    ZSTD_VP_hufX1,
+    ZSTD_VP_hufX2,
+    ZSTD_VP_indexJumped,                 /* ZSTD_verif_indexJump() applied */
+    ZSTD_VP_dictScrolledOut,             /* dictionary invalidated because out of window reach */
+    ZSTD_VP_count
+};
+
+enum {
+    ZSTD_VC_hufSelectDecoder = 1,        /* flip X1 <-> X2 */
+    ZSTD_VC_usePrefetchDecoder,          /* force the prefetching sequence decoder */
+    ZSTD_VC_disableBmi2,                 /* clear dctx->bmi2 */
+    ZSTD_VC_count
+};
+
+#ifdef ZSTD_VERIF_SIM
+# if defined (__cplusplus)
+extern "C" {
+# endif
+void     ZSTD_verif_probe(int id);
+int      ZSTD_verif_coin(int site);
+unsigned ZSTD_verif_indexJump(void);
+# if defined (__cplusplus)
+}
+# endif
+# define ZSTD_VERIF_PROBE(id)  ZSTD_verif_probe(id)
+# define ZSTD_VERIF_COIN(site) ZSTD_verif_coin(site)
+#else
+# define ZSTD_VERIF_PROBE(id)  ((void)0)
+# define ZSTD_VERIF_COIN(site) (0)
+#endif
+
+#endif /* ZSTD_VERIF_H */
